@@ -94,6 +94,7 @@ def step (st : St) (line : String) : St × String :=
   let (name, i) := target opw
   match name, args with
   | "reset", [] => (fresh, "ok")
+  | "restart", [] => ({ st with w := (applyOp { hash := fun _ => 0, recover := fun _ _ => none } st.w .restart).1 }, "ok same")
   | "cons", [] =>
     match st.w i with
     | none => (st, "-")
